@@ -10,6 +10,7 @@ from vmon.checks.common import obs, fail, random_prefix, apply_prefix
 SPLIT_WAITS = "seq"   # worker: every fifth case is built from relative messages with rests split into adjacent waits
 DEGEN = "seq"    # worker: every 37th case becomes a degenerate shape (gen.degenerate)
 DRUMS = "seq"    # worker: every eleventh case is moved onto channel 9 / 15 (gen.relabel_channels)
+REJECTED_EVERY = 7
 REJECTED = "prefix"    # worker: every thirteenth case starts with a call the library rejects (common.apply_prefix "rejected")
 SCALE = True   # worker: every fortieth case (or SCALE_EVERY-th) is blown up by scale_case below
 PROP = "C10"
